@@ -158,14 +158,14 @@ theorem compact_on (cfg : Cfg K V) (s s' : State K V) (b : Nat) (ids : List Nat)
 omit [DecidableEq V] in
 theorem addVectors_on (s s' : State K V) (b : Nat) (ids : List Nat)
     (h : addVectors s b ids = .ok s') : CommitsOn s s' b := by
-  unfold addVectors at h
+  unfold addVectors addVectorsOf at h
   opsplit h
   all_goals exact commitsOn_self _ _ _ _ ‹_›
 
 omit [DecidableEq V] in
 theorem deleteVectors_on (s s' : State K V) (b : Nat) (ids : List Nat)
     (h : deleteVectors s b ids = .ok s') : CommitsOn s s' b := by
-  unfold deleteVectors at h
+  unfold deleteVectors deleteVectorsOf at h
   opsplit h
   all_goals exact commitsOn_self _ _ _ _ ‹_›
 
@@ -369,12 +369,12 @@ theorem delete_refines_ (s s' : State K V) (b : Nat) (ids : List Nat) (t : Nat) 
         congr 1; funext o; cases ids.contains o.id <;> rfl
       rw [this])).flatMap_right _
 
-theorem addVectors_snap (s s' : State K V) (b : Nat) (ids : List Nat) (t : Nat) (snap : Snap K)
-    (hn : ids.Nodup) (h : addVectors s b ids = .ok s') (ht : s.tip b = some t)
+theorem addVectorsOf_snap (s s' : State K V) (b : Nat) (ids : List Nat) (t : Nat) (snap : Snap K)
+    (hn : ids.Nodup) (h : addVectorsOf s b ids = .ok s') (ht : s.tip b = some t)
     (hs : snapAt s.commits t = .ok snap) :
     ∃ snap', snapAt s'.commits (s.commits.length + 1) = .ok snap' ∧ snap'.objs = snap.objs ∧
       s'.files = s.files := by
-  unfold addVectors at h
+  unfold addVectorsOf at h
   rw [ht] at h
   simp only [] at h
   split at h
@@ -394,12 +394,18 @@ theorem addVectors_snap (s s' : State K V) (b : Nat) (ids : List Nat) (t : Nat) 
       have hp := play_addVecs snap ids hn hout
       exact ⟨{ snap with vecs := snap.vecs ++ ids }, by rw [commit_snap_ s b t _ snap hs, hp], rfl, rfl⟩
 
-theorem deleteVectors_snap (s s' : State K V) (b : Nat) (ids : List Nat) (t : Nat) (snap : Snap K)
-    (hn : ids.Nodup) (h : deleteVectors s b ids = .ok s') (ht : s.tip b = some t)
+theorem addVectors_snap (s s' : State K V) (b : Nat) (ids : List Nat) (t : Nat) (snap : Snap K)
+    (h : addVectors s b ids = .ok s') (ht : s.tip b = some t) (hs : snapAt s.commits t = .ok snap) :
+    ∃ snap', snapAt s'.commits (s.commits.length + 1) = .ok snap' ∧ snap'.objs = snap.objs ∧
+      s'.files = s.files :=
+  addVectorsOf_snap s s' b (uniqueIds ids) t snap (nodup_uniqueIds ids) h ht hs
+
+theorem deleteVectorsOf_snap (s s' : State K V) (b : Nat) (ids : List Nat) (t : Nat) (snap : Snap K)
+    (hn : ids.Nodup) (h : deleteVectorsOf s b ids = .ok s') (ht : s.tip b = some t)
     (hs : snapAt s.commits t = .ok snap) :
     ∃ snap', snapAt s'.commits (s.commits.length + 1) = .ok snap' ∧ snap'.objs = snap.objs ∧
       s'.files = s.files := by
-  unfold deleteVectors at h
+  unfold deleteVectorsOf at h
   rw [ht] at h
   simp only [hs] at h
   split at h
@@ -416,6 +422,12 @@ theorem deleteVectors_snap (s s' : State K V) (b : Nat) (ids : List Nat) (t : Na
     obtain ⟨snap', hp⟩ := play_delVecs_ok snap ids hn hin
     exact ⟨snap', by rw [commit_snap_ s b t _ snap hs, hp], play_delVec_objs snap snap' ids hp, rfl⟩
 
+theorem deleteVectors_snap (s s' : State K V) (b : Nat) (ids : List Nat) (t : Nat) (snap : Snap K)
+    (h : deleteVectors s b ids = .ok s') (ht : s.tip b = some t) (hs : snapAt s.commits t = .ok snap) :
+    ∃ snap', snapAt s'.commits (s.commits.length + 1) = .ok snap' ∧ snap'.objs = snap.objs ∧
+      s'.files = s.files :=
+  deleteVectorsOf_snap s s' b (uniqueIds ids) t snap (nodup_uniqueIds ids) h ht hs
+
 /-! ### the reference (what the "simple model" of C14 predicts) and the refinement theorem -/
 
 /-- operations of C14 (everything but merge / revert, which are C15's) -/
@@ -425,12 +437,9 @@ def Op.isC14 : Op V → Bool
 
 /-- side conditions under which the reference speaks about branch `b` with tip `t`:
     a vacuum is of `b`'s own tip (vacuuming another commit may remove objects `b` still uses:
-    "until its objects are explicitly vacuumed"), vector operations list each id once
-    (duplicates make the commit unreplayable: finding C14:addvec:duplicate-id) -/
+    "until its objects are explicitly vacuumed") -/
 def Op.okFor (t : Nat) : Op V → Prop
   | .vacuum c => c = t
-  | .addVectors _ ids => ids.Nodup
-  | .deleteVectors _ ids => ids.Nodup
   | _ => True
 
 /-- **reference step**: how the contents `cs` of branch `b` (tip `t` in `s`) change under a
@@ -544,7 +553,7 @@ theorem refinement (cfg : Cfg K V) (s s' : State K V) (op : Op V) (b t : Nat) (c
     have hon := addVectors_on s s' b' ids ha
     by_cases hb : b' = b
     · subst hb
-      obtain ⟨snap', hs', hobjs, hf⟩ := addVectors_snap s s' b' ids t snap hok ha ht hs
+      obtain ⟨snap', hs', hobjs, hf⟩ := addVectors_snap s s' b' ids t snap ha ht hs
       refine ⟨_, _, (hon.tip).1, ?_, rfl⟩
       have := contents_new s s' he snap snap' _ hpres hs' (fun o ho => Or.inl (by rw [hobjs] at ho; exact ho))
       rw [this, hobjs, hf, hcs]
@@ -555,7 +564,7 @@ theorem refinement (cfg : Cfg K V) (s s' : State K V) (op : Op V) (b t : Nat) (c
     have hon := deleteVectors_on s s' b' ids ha
     by_cases hb : b' = b
     · subst hb
-      obtain ⟨snap', hs', hobjs, hf⟩ := deleteVectors_snap s s' b' ids t snap hok ha ht hs
+      obtain ⟨snap', hs', hobjs, hf⟩ := deleteVectors_snap s s' b' ids t snap ha ht hs
       refine ⟨_, _, (hon.tip).1, ?_, rfl⟩
       have := contents_new s s' he snap snap' _ hpres hs' (fun o ho => Or.inl (by rw [hobjs] at ho; exact ho))
       rw [this, hobjs, hf, hcs]
